@@ -112,13 +112,16 @@ def run_kani(spec, tier):
     name = spec['name']
     r = UnitResult(name, 'kani (CBMC)')
     t0 = time.time()
-    crate_dir = os.path.join(VERIF, 'kani', spec['crate'])
+    crate_dir = crate_dir_of(spec['crate'])
     target_dir = os.path.join(BUILD, 'kani-' + spec['crate'])
     os.makedirs(target_dir, exist_ok=True)
     flags = list(spec.get('flags', []))
+    env = dict(spec.get('env', {}))
+    if spec.get('tier_env'):
+        env[spec['tier_env']] = tier
     inputs = [os.path.join(crate_dir, 'src'), os.path.join(crate_dir, 'Cargo.toml'), os.path.join(crate_dir, 'build.rs'),
               os.path.join(REPO, 'Cargo.lock')] + [os.path.join(REPO, c) for c in spec.get('repo_crates', [])]
-    key = _hash_inputs(inputs, {'h': spec['harnesses'], 'f': flags, 'v': 'kani-0.68.0'})
+    key = _hash_inputs(inputs, {'h': spec['harnesses'], 'f': flags, 'v': 'kani-0.68.0', 'e': env})
     cache_file = os.path.join(BUILD, 'kani-cache', '%s-%s.json' % (name, key))
     r.cmd = 'cd %s && cargo kani -Z stubbing -Z unstable-options -j 14 --output-format terse %s %s' % (
         crate_dir, ' '.join('--harness ' + h for h in spec['harnesses']), ' '.join(flags))
@@ -130,7 +133,7 @@ def run_kani(spec, tier):
         r.extra['cached_wall_s'] = c['wall_s']
         out = c.get('tail', '')
     else:
-        cmd, rc, out, err, wall, to = kani_run(crate_dir, target_dir, spec['harnesses'], flags, spec.get('timeout', 3000))
+        cmd, rc, out, err, wall, to = kani_run(crate_dir, target_dir, spec['harnesses'], flags, spec.get('timeout', 3000), env=env)
         if to:
             r.status, r.reason = INCONCLUSIVE, 'cargo kani timed out after %ds' % spec.get('timeout', 3000)
             r.wall_s = time.time() - t0
@@ -181,7 +184,7 @@ def run_kani(spec, tier):
                     r.reason = 'harness %s: unwinding bound too small (not a verdict)' % h
                 continue
             r.discharged += max(res['checks'] - max(res['failed'], 1), 0)
-            r.failures.append({'function': h, 'harness': h, 'message': why,
+            r.failures.append({'function': h, 'harness': h, 'message': why, 'props': failure_props(h, res['failed_checks']),
                                'failed_checks': res['failed_checks'][:6], 'tags': [], 'crate': spec['crate'],
                                'flags': flags,
                                'repo_file': next((fc[1] for fc in res['failed_checks'] if fc[1].startswith(REPO)), None),
@@ -204,6 +207,37 @@ def run_kani(spec, tier):
         r.extra['samples'] = harness_rows[:2]
     r.wall_s = time.time() - t0
     return r
+
+
+def crate_dir_of(crate):
+    return os.path.join(VERIF, 'gk') if crate == 'gk' else os.path.join(VERIF, 'kani', crate)
+
+
+_BUILTIN = [
+    ('never freed', ['C06']),
+    ('double free', ['C06', 'C07']),
+    ('free argument', ['C06', 'C07']),
+    ('dereference failure', ['C07']),
+    ('misaligned', ['C07']),
+    ('pointer', ['C07']),
+    ('dead object', ['C07']),
+]
+
+
+def failure_props(h, failed_checks):
+    """which properties a failed harness speaks for: tags in the assertion text (`C05 ...`), CBMC's
+    built-in memory checks (-> C06 / C07), and the harness name prefix"""
+    props = set()
+    for fc in failed_checks:
+        for m in re.finditer(r'\bC(\d\d)\b', fc[0]):
+            props.add('C' + m.group(1))
+        for sub, ps in _BUILTIN:
+            if sub in fc[0]:
+                props.update(ps)
+    m = re.search(r'(?:^|::)(c\d\d)_', h)
+    if m:
+        props.add(m.group(1).upper())
+    return sorted(props)
 
 
 def judge(h, res, exp):
@@ -238,19 +272,23 @@ def judge(h, res, exp):
     return True, '', None
 
 
+def tier_of(spec):
+    return spec.get('_tier', 'quick')
+
+
 def make_replay(pid, spec, r, f, base):
     """Re-run the failed harness alone with concrete playback: Kani prints its counterexample as a
     Rust unit test; `./check --replay` executes that test natively against the real code."""
     path = base + '.json'
     crate = f.get('crate') or spec.get('crate')
-    crate_dir = os.path.join(VERIF, 'kani', crate)
+    crate_dir = crate_dir_of(crate)
     target_dir = os.path.join(BUILD, 'kani-' + crate)
     cmd = ['cargo', 'kani', '-Z', 'stubbing', '-Z', 'unstable-options', '-Z', 'concrete-playback', '--concrete-playback=print',
            '--harness', f['harness'], '--output-format', 'terse'] + [x for x in f.get('flags', [])]
     playback = ''
     out = ''
     if not f.get('no_playback'):
-        rc, out, err, wall, to = _sh(cmd, 1500, cwd=crate_dir, env={'CARGO_TARGET_DIR': target_dir})
+        rc, out, err, wall, to = _sh(cmd, 1500, cwd=crate_dir, env=dict(spec.get('env', {}), CARGO_TARGET_DIR=target_dir, GK_TIER=tier_of(spec)))
         blocks = re.findall(r'```\n(.*?)```', out, re.S)
         blocks = [b for b in blocks if 'Check for `cover`' not in b]
         if blocks:
@@ -271,7 +309,7 @@ def make_replay(pid, spec, r, f, base):
 
 def replay(j):
     """native execution of Kani's counterexample against the real code, then the harness itself"""
-    crate_dir = os.path.join(VERIF, 'kani', j['crate'])
+    crate_dir = crate_dir_of(j['crate'])
     target_dir = os.path.join(BUILD, 'kani-' + j['crate'])
     rc_native = None
     if j.get('playback_test'):
@@ -304,3 +342,52 @@ def replay(j):
     for f in r.failures:
         print('  failed: %s' % f['message'])
     return 1 if r.status == VIOLATION else (0 if r.status == PASS else 2)
+
+
+# ------------------------------------------------------------------------------------------------
+# C07: call-site receiver classification of the generated modules (type-directed, not solver-backed)
+_CALL = re.compile(r'\b((?:[A-Za-z_][A-Za-z0-9_]*\.)*[A-Za-z_][A-Za-z0-9_]*)\.(write|read|get|get_mut)\s*(?:::<[^;]*?>)?\(')
+
+
+def run_callsites(spec, tier, probes):
+    """probes: {primitive: requires_alignment(bool)} from the bare-buffer probes (Kani).  A call
+    site whose receiver is a bare `RecordMaybeUninit` local (alignment 1) calling a primitive that
+    requires an aligned receiver is an unmet precondition."""
+    r = UnitResult(spec['name'], 'call-site classification (syn-free token scan of the emitted modules; type-directed, not solver-backed)')
+    t0 = time.time()
+    d = os.path.join(BUILD, 'gk-gen')
+    files = sorted(f for f in os.listdir(d) if f.endswith('.rs') and not f.startswith('corpus')) if os.path.isdir(d) else []
+    if not files:
+        r.status, r.reason = INCONCLUSIVE, 'no generated modules dumped (gk unit did not run)'
+        return r
+    sites = {}
+    for fn in files:
+        txt = open(os.path.join(d, fn)).read()
+        # locals holding a bare buffer
+        bare = set(re.findall(r'let\s+(?:mut\s+)?([A-Za-z_][A-Za-z0-9_]*)\s*(?::\s*RecordMaybeUninit<[^>]*>)?\s*=\s*(?:RecordMaybeUninit::new\(\)|unsafe\s*\{\s*std::ptr::read\(&[A-Za-z_.]*data\)\s*\})', txt))
+        for n, line in enumerate(txt.split('\n'), 1):
+            for m in _CALL.finditer(line):
+                recv, prim = m.group(1), m.group(2)
+                if recv.split('.')[-1] != 'data' and recv not in bare:
+                    continue
+                kind = 'bare-local' if recv in bare else 'field-of-aligned-record'
+                sites.setdefault((prim, kind), []).append('%s:%d: %s' % (fn, n, line.strip()[:100]))
+    r.extra['callsites'] = {'%s on %s' % k: len(v) for k, v in sites.items()}
+    r.extra['probes_require_alignment'] = probes
+    r.obligations = sum(len(v) for v in sites.values())
+    for (prim, kind), lst in sorted(sites.items()):
+        if kind == 'bare-local' and probes.get(prim, True):
+            r.failures.append({'function': 'generated code', 'callsite': '%s@bare-local' % prim,
+                               'message': 'C07: %d call sites store/load through `%s` on a bare RecordMaybeUninit local (alignment 1) while `%s` requires an aligned receiver (Kani probe); e.g. %s'
+                                          % (len(lst), prim, prim, lst[0]),
+                               'examples': lst[:5], 'tags': ['C07'], 'props': ['C07'], 'no_playback': False,
+                               'harness': 'data::bare_u32::probe_%s_on_bare_buffer' % prim, 'crate': 'runtime', 'flags': []})
+        else:
+            r.discharged += len(lst)
+    if r.failures:
+        r.status = VIOLATION
+        r.reason = '%d kinds of call site with an unmet alignment precondition' % len(r.failures)
+    r.wall_s = time.time() - t0
+    r.assumptions = ['which receivers are bare is read off the emitted text (local bound to RecordMaybeUninit::new() or to ptr::read(&..data)); '
+                     'a value of a repr(align(N)) type lives at an address that is a multiple of N (Rust layout rule)']
+    return r
